@@ -519,19 +519,23 @@ func (r *PipelineRunner) JobCompleted(id uuid.UUID, err error) {
 }
 
 func (r *PipelineRunner) startJobsOnWaitList(pipeline string) {
-	// Check wait list if another job is queued
-	waitList := r.waitListByPipeline[pipeline]
-
 	// Schedule as many jobs as are schedulable (also process if the schedule action is start delay and check individual jobs if they can be started)
-	for len(waitList) > 0 && r.resolveDequeueJobAction(waitList[0]) == scheduleActionStart {
+	for {
+		// Always work on the current wait list, since starting a job can change it (e.g. if the job fails to start)
+		waitList := r.waitListByPipeline[pipeline]
+		if len(waitList) == 0 || r.resolveDequeueJobAction(waitList[0]) != scheduleActionStart {
+			return
+		}
+
 		queuedJob := waitList[0]
 		// Queued job has a start delay timer set - wait for it to fire
 		if queuedJob.startTimer != nil {
 			// TODO We need to check if we rather need to skip only this job and continue to process other jobs on the queue
-			break
+			return
 		}
 
-		waitList = waitList[1:]
+		// Remove the job from the wait list before starting it
+		r.waitListByPipeline[pipeline] = waitList[1:]
 
 		r.startJob(queuedJob)
 
@@ -541,7 +545,6 @@ func (r *PipelineRunner) startJobsOnWaitList(pipeline string) {
 			WithField("jobID", queuedJob.ID).
 			Debugf("Dequeue: scheduled job execution")
 	}
-	r.waitListByPipeline[pipeline] = waitList
 }
 
 // IterateJobs calls process for each job in a read lock.
